@@ -183,7 +183,7 @@ theorem oldOKs_append (env : Env) : ∀ (fs1 fs2 : List Field) (o1 o2 : List Val
     simp only [OldOKs, List.cons_append] at h1 ⊢
     exact ⟨h1.1, oldOKs_append env fs1 fs2 o1 o2 h1.2 h2⟩
 
-theorem proxyFinish_ok (env : Env) (rk : String → Nat) (hE : EnvWF env rk) (sig : Sig)
+theorem proxyFinish_ok (v : Variant) (env : Env) (rk : String → Nat) (hE : EnvWF env rk) (sig : Sig)
     (args : List Val) (opts : List (Option StrMap)) (resp : RspPacket) (ret : Option Val)
     (outs : List Val)
     (hbuf : resp.sBuffer = encMembers env (rspFields sig) (ret.toList ++ outs))
@@ -193,8 +193,8 @@ theorem proxyFinish_ok (env : Env) (rk : String → Nat) (hE : EnvWF env rk) (si
     (hty : ∀ p ∈ sig.params, TyOK env rk (env.length + 1) p.ty)
     (hretTy : ∀ t, sig.ret = some t → TyOK env rk (env.length + 1) t)
     (hfresh : OutsFresh env sig args) :
-    proxyFinish env sig args opts resp =
-      match copyBackAll opts resp.context resp.status with
+    proxyFinish v env sig args opts resp =
+      match copyBackAll v opts resp.context resp.status with
       | .error site => .panicked site
       | .ok (c, s) => .returned none ⟨normRet env sig ret, normOuts env sig outs, c, s⟩ := by
   have hout := outFieldsFrom_ok env rk sig.params 0 (by omega) hty
@@ -239,14 +239,14 @@ theorem proxyFinish_ok (env : Env) (rk : String → Nat) (hE : EnvWF env rk) (si
       | none => simp [hsr] at hshape
       | some v => simp [rspFields, retFields, hsr, normRet, normOuts, normMembers]
   rw [hvals.1, hvals.2]
-  cases copyBackAll opts resp.context resp.status with
+  cases copyBackAll v opts resp.context resp.status with
   | error site => rfl
   | ok p => rfl
 
-/-- copy-back into non-nil maps succeeds -/
+/-- as found: copy-back into non-nil maps succeeds -/
 theorem copyBackAll_nonnil (opts : List (Option StrMap)) (rctx rst : StrMap)
     (hnil : ∀ m ∈ opts, m ≠ none) :
-    copyBackAll opts rctx rst = .ok (copiedMaps opts rctx rst) := by
+    copyBackAll .asFound opts rctx rst = .ok (copiedMaps opts rctx rst) := by
   match opts, hnil with
   | [], _ => simp [copyBackAll, copiedMaps]
   | [none], h => exact absurd rfl (h none (by simp))
@@ -255,5 +255,14 @@ theorem copyBackAll_nonnil (opts : List (Option StrMap)) (rctx rst : StrMap)
   | [some _, none], h => exact absurd rfl (h none (by simp))
   | [some c, some s], _ => simp [copyBackAll, copiedMaps, copyBack]
   | _ :: _ :: _ :: _, _ => simp [copyBackAll, copiedMaps]
+
+/-- current code: copy-back always succeeds; nil maps are left alone -/
+theorem copyBackAll_repaired (opts : List (Option StrMap)) (rctx rst : StrMap) :
+    copyBackAll .repaired opts rctx rst = .ok (copiedMaps opts rctx rst) := by
+  match opts with
+  | [] => simp [copyBackAll, copiedMaps, optsMaps]
+  | [c] => cases c <;> simp [copyBackAll, copiedMaps, optsMaps]
+  | [c, s] => cases c <;> cases s <;> simp [copyBackAll, copiedMaps, optsMaps]
+  | _ :: _ :: _ :: _ => simp [copyBackAll, copiedMaps, optsMaps]
 
 end Tars.CallPath
